@@ -20,6 +20,7 @@ package mint
 //@ ensures [three_quarters_to_reward_pool] err == nil && minter.PreviousBlockTime != nil ==> bank.bal[module("time_based_rewards")] == old(bank.bal[module("time_based_rewards")]) + (bank.supply - old(bank.supply)) - (bank.supply - old(bank.supply))/4
 //@ ensures [mint_account_net_zero] err == nil ==> bank.bal[module("mint")] == old(bank.bal[module("mint")])
 //@ ensures [supply_never_shrinks] bank.supply >= old(bank.supply)
+//@ ensures [never_fails_when_time_moves_forward] (minter.PreviousBlockTime != nil ==> currentTime > deref(minter.PreviousBlockTime)) && old(bank.bal[module("mint")]) >= 0 ==> err == nil
 
 //@ func SetPreviousBlockTime(ctx, k, blockTime) (err)
 //@ modifies mint.Minter
@@ -34,3 +35,4 @@ package mint
 //@ ensures [mints_rate_times_elapsed_ms] err == nil && old(mint.Minter.Initialized) && old(mint.Minter.PreviousBlockTime) != nil && blocktime(ctx) != zerotime() ==> bank.supply == old(bank.supply) + 146940000 * ((blocktime(ctx) - old(deref(mint.Minter.PreviousBlockTime))) / 1000000) / 86400000
 //@ ensures [advances_previous_time] err == nil && old(mint.Minter.Initialized) && blocktime(ctx) != zerotime() ==> mint.Minter.PreviousBlockTime != nil && deref(mint.Minter.PreviousBlockTime) == blocktime(ctx)
 //@ ensures [supply_never_shrinks_here] bank.supply >= old(bank.supply)
+//@ ensures [block_processing_never_fails_when_time_moves_forward] has(old(mint.Minter)) && (old(mint.Minter.PreviousBlockTime) != nil ==> blocktime(ctx) > old(deref(mint.Minter.PreviousBlockTime))) && old(bank.bal[module("mint")]) >= 0 ==> err == nil
